@@ -362,6 +362,10 @@ func (r *runner) succ(used int) (def *Ev, alts []altT, v *viol) {
 	m, bc, c := r.m, r.n.BC, r.c
 	tip := c.src.tip
 	pr := c.prof
+	oc := pr.OrderCost
+	if oc <= 0 {
+		oc = 1
+	}
 	switch {
 	case !m.IsActive():
 		if bc.BlockHeight() < tip {
@@ -396,12 +400,12 @@ func (r *runner) succ(used int) (def *Ev, alts []altT, v *viol) {
 		}
 		d := c.pick(u)
 		def = &Ev{K: "node", H: hx(d)}
-		free := pr.Tail > 0 && c.trie.closure(u) <= pr.Tail
+		free := pr.Tail > 0 && used == 0 && c.trie.closure(u) <= pr.Tail
 		for _, h := range u {
 			if h == d {
 				continue
 			}
-			cost := 1
+			cost := oc
 			if free {
 				cost = 0
 			}
@@ -412,15 +416,15 @@ func (r *runner) succ(used int) (def *Ev, alts []altT, v *viol) {
 				if len(c.trie.Kids[h]) == 0 {
 					continue
 				}
-				alts = append(alts, altT{Ev{K: "sub", H: hx(h)}, 1})
+				alts = append(alts, altT{Ev{K: "sub", H: hx(h)}, oc})
 				if pr.SubTrunc && len(c.trie.Sub[h]) > 3 {
-					alts = append(alts, altT{Ev{K: "sub", H: hx(h), N: 3}, 1})
+					alts = append(alts, altT{Ev{K: "sub", H: hx(h), N: 3}, oc})
 				}
 			}
 			if len(u) > 1 {
-				alts = append(alts, altT{Ev{K: "all", H: "asc"}, 1}, altT{Ev{K: "all", H: "desc"}, 1})
+				alts = append(alts, altT{Ev{K: "all", H: "asc"}, oc}, altT{Ev{K: "all", H: "desc"}, oc})
 			}
-			alts = append(alts, altT{Ev{K: "mix", H: hx(d)}, 1})
+			alts = append(alts, altT{Ev{K: "mix", H: hx(d)}, oc})
 		}
 	case m.NeedStorageData() && c.Mode == "items":
 		pos := r.itemPos()
@@ -444,15 +448,15 @@ func (r *runner) succ(used int) (def *Ev, alts []altT, v *viol) {
 			if k == dk {
 				continue
 			}
-			cost := 1
+			cost := oc
 			if pr.ItemsFree && used == 0 {
 				cost = 0
 			}
 			alts = append(alts, altT{Ev{K: "items", N: k}, cost})
 		}
-		alts = append(alts, altT{Ev{K: "items", N: 1, H: "bad"}, 1})
+		alts = append(alts, altT{Ev{K: "items", N: 1, H: "bad"}, oc})
 		if rem >= 2 {
-			alts = append(alts, altT{Ev{K: "items", N: 2, H: "gap"}, 1})
+			alts = append(alts, altT{Ev{K: "items", N: 2, H: "gap"}, oc})
 		}
 	case m.NeedBlocks():
 		def = &Ev{K: "blk"}
@@ -682,7 +686,14 @@ func (r *runner) do(e Ev) (v *viol) {
 	if v != nil {
 		return v
 	}
-	return r.invariants()
+	if v = r.invariants(); v != nil {
+		return v
+	}
+	if (e.K == "restart" || e.K == "crash") && !r.m.IsActive() {
+		// the node came up on a jumped (or resumed-jump) database
+		v = r.checkAt(r.n.BC.BlockHeight(), "after "+e.String())
+	}
+	return v
 }
 
 func (r *runner) doItems(e Ev) (v *viol, pan any) {
@@ -763,6 +774,13 @@ func (r *runner) checkAt(h uint32, when string) *viol {
 	}
 	if d := diffLite(src.lite[h], lo, src.stor[h], st); len(d) != 0 {
 		return &viol{Oracle: "state-differs", What: fmt.Sprintf("%s: the synced node at height %d differs from the source at that height", when, h), Diff: d}
+	}
+	md, err := mptDigest(r.n)
+	if err != nil {
+		return &viol{Oracle: "state-trie-unreadable", What: fmt.Sprintf("%s at height %d: enumerating the state trie from the local root failed: %v", when, h, err)}
+	}
+	if md != src.mptd[h] {
+		return &viol{Oracle: "state-trie-differs", What: fmt.Sprintf("%s: the key-value pairs reachable through the stored state trie at height %d (digest/count %s) differ from the source's (%s)", when, h, md, src.mptd[h])}
 	}
 	return nil
 }
